@@ -236,7 +236,7 @@ func TestVerifC08Long(t *testing.T) {
 	cases := env.NewCases(res, "long-backlog/written-while-detached")
 	ns := []int{1, 10, 100, 999, 1000, 1001, 1500}
 	if !env.Quick() {
-		ns = append(ns, 3000, 10000)
+		ns = append(ns, 3000)
 	}
 	for _, stream := range []string{"request", "standalone"} {
 		for _, version := range []string{"2025-06-18", "2025-11-25"} {
